@@ -24,6 +24,9 @@ pub struct Case {
     /// 0 agent-v1 (inline transcript), 1 claude (re-fetched from a JSONL file)
     pub agent: u8,
     pub messages: Vec<Msg>,
+    /// generated history (when non-empty it replaces the enumerated `path`)
+    #[serde(default)]
+    pub ops: Vec<HOp>,
 }
 
 pub const N_MODES: u8 = 10;
@@ -103,9 +106,47 @@ fn msg_strategy() -> impl Strategy<Value = Msg> {
     (0u8..5, proptest::collection::vec("[A-Za-z0-9_+/.~-]{20,80}", 0..3)).prop_map(|(kind, secrets)| Msg { kind, secrets })
 }
 
+/// generated histories: any composition of agent/human work with the note-writing and
+/// note-rewriting operations (the oracle does not depend on the shape of the history)
+fn history_ops() -> impl Strategy<Value = Vec<HOp>> {
+    let block = prop_oneof![
+        6 => work_block(crate::gen::edit_r1()),
+        4 => ai_edit_op().prop_map(|o| vec![o]),
+        4 => prop_oneof![(1u8..4).prop_map(|mask| HOp::CommitFiles { mask }), (0u8..2, 1u16..0xffff).prop_map(|(file, mask)| HOp::CommitHunks { file, mask })].prop_map(|o| vec![o]),
+        4 => any::<bool>().prop_map(|stage_all| vec![HOp::Amend { stage_all }]),
+        5 => preserving_op().prop_map(|o| vec![o]),
+        4 => rewrite_scenario_block(crate::gen::edit_r1()),
+        2 => stash_block(crate::gen::edit_r1()),
+        1 => diverge_block(crate::gen::edit_r1()),
+        // agent work in several files, part of it committed, then a note-(re)writing op
+        // while the rest is still carried as pending attribution
+        6 => (
+            proptest::collection::vec(ai_edit_op(), 1..=3),
+            prop_oneof![(1u8..4).prop_map(|mask| HOp::CommitFiles { mask }), (0u8..2, 1u16..0xffff).prop_map(|(file, mask)| HOp::CommitHunks { file, mask })],
+            prop_oneof![
+                4 => any::<bool>().prop_map(|stage_all| HOp::Amend { stage_all }),
+                2 => Just(HOp::Commit),
+                2 => (1u8..3).prop_map(|back| HOp::ResetSoft { back, recommit: true }),
+                1 => Just(HOp::Stash),
+                2 => preserving_op(),
+            ],
+        )
+            .prop_map(|(mut e, p, t)| {
+                e.push(p);
+                e.push(t);
+                e
+            }),
+    ];
+    proptest::collection::vec(block, 2..=5).prop_map(|b| {
+        let mut v: Vec<HOp> = b.into_iter().flatten().collect();
+        v.truncate(26);
+        v
+    })
+}
+
 pub fn strategy() -> impl Strategy<Value = Case> {
-    (0u8..N_MODES, 0u8..N_PATHS, 0u8..2, proptest::collection::vec(msg_strategy(), 1..6))
-        .prop_map(|(mode, path, agent, messages)| Case { mode, path, agent, messages })
+    (0u8..N_MODES, 0u8..N_PATHS, 0u8..2, proptest::collection::vec(msg_strategy(), 1..6), proptest::option::weighted(0.8, history_ops()))
+        .prop_map(|(mode, path, agent, messages, ops)| Case { mode, path, agent, messages, ops: ops.unwrap_or_default() })
 }
 
 const WORDS: &[&str] = &["zebra", "umbrella", "granite", "harbor", "velvet", "cobalt", "meadow", "lantern"];
@@ -113,7 +154,11 @@ const WORDS: &[&str] = &["zebra", "umbrella", "granite", "harbor", "velvet", "co
 pub fn run(case: &Case) -> CaseReport {
     let mut rep = CaseReport::default();
     let (cfg, keeps_text, mode_name) = mode_config(case.mode);
-    let (ops, path_name) = path_ops(case.path);
+    let (mut ops, mut path_name) = path_ops(case.path);
+    if !case.ops.is_empty() {
+        ops = case.ops.clone();
+        path_name = "generated history";
+    }
     rep.class(format!("mode:{mode_name}"));
     rep.class(format!("path:{path_name}"));
     rep.class(if case.agent % 2 == 0 { "agent:agent-v1" } else { "agent:claude" });
@@ -245,6 +290,7 @@ pub fn spec() -> Spec<Case> {
                         Msg { kind: 2, secrets: vec![] },
                         Msg { kind: 4, secrets: vec![] },
                     ],
+                    ops: vec![],
                 });
             }
         }
@@ -252,8 +298,8 @@ pub fn spec() -> Spec<Case> {
     Spec {
         id: "C08",
         level: "exploration",
-        rule: "enumerated cross product {10 prompt-storage configurations: no config file, default, default + custom api_base_url, local, notes, include-list match/miss with default_prompt_storage unset/notes/local, exclude-list match} x {12 note-writing paths: commit, partial commit + later commit, amend with/without new agent work, rebase fast/slow path, cherry-pick, merge --squash + commit, reset --soft + recommit, stash -> pop -> commit, rebase -i squash, CI rewrite of a server-side squash merge via `git-ai squash-authorship`} x {agent-v1 with inline transcript, claude with transcript re-fetched from a JSONL file} with a fixed transcript (240 scenarios), plus generated combinations with generated transcripts (1-5 messages of kinds user/assistant/thinking/plan/tool_use, each with a unique low-entropy canary and 0-2 planted tokens from [A-Za-z0-9_+/.~-]{20,80} that the library's own classifier accepts). Oracle: every blob of every commit in `git rev-list refs/notes/ai` is searched: unless the effective mode is 'notes' no canary may occur; in 'notes' mode the middle of every planted secret must not occur (and text canaries do occur - non-vacuity counter). non-trivial = a note with AI lines was written in a history with agent checkpoints; distinct by case hash".into(),
-        cases_quick: 42,
+        rule: "enumerated cross product {10 prompt-storage configurations: no config file, default, default + custom api_base_url, local, notes, include-list match/miss with default_prompt_storage unset/notes/local, exclude-list match} x {12 note-writing paths: commit, partial commit + later commit, amend with/without new agent work, rebase fast/slow path, cherry-pick, merge --squash + commit, reset --soft + recommit, stash -> pop -> commit, rebase -i squash, CI rewrite of a server-side squash merge via `git-ai squash-authorship`} x {agent-v1 with inline transcript, claude with transcript re-fetched from a JSONL file} with a fixed transcript (240 scenarios), plus generated combinations - four fifths of them over generated histories (2-5 blocks of agent/human work, partial commits by file and hunk, amends, rebases incl. interactive, cherry-picks, squash merges, resets + recommit, stash round trips, CI squash rewrites) instead of an enumerated path - with generated transcripts (1-5 messages of kinds user/assistant/thinking/plan/tool_use, each with a unique low-entropy canary and 0-2 planted tokens from [A-Za-z0-9_+/.~-]{20,80} that the library's own classifier accepts). Oracle: every blob of every commit in `git rev-list refs/notes/ai` is searched: unless the effective mode is 'notes' no canary may occur; in 'notes' mode the middle of every planted secret must not occur (and text canaries do occur - non-vacuity counter). non-trivial = a note with AI lines was written in a history with agent checkpoints; distinct by case hash".into(),
+        cases_quick: 182,
         cases_thorough: 2500,
         shrink_iters: 40,
         workers: 14,
